@@ -57,3 +57,34 @@ Proof.
   - destruct r; try reflexivity;
       (cbn [with_graph f_res]; destruct (get ref_eqb _ (r_index (f_res (seq_fstate fx ig ov (map snd (fc_log cf)))))); reflexivity).
 Qed.
+
+(* Tags lists exactly the names that resolve (the digest self-references are filtered out) ... *)
+Lemma tags_names (idx : list (ref * desc)) n :
+  In (RName n) (map fst (filter (fun e => negb (ref_eqb (fst e) (RDig (d_dig (snd e))))) idx)) <->
+  get ref_eqb (RName n) idx <> None.
+Proof.
+  induction idx as [|[r d] idx IH]; [simpl; split; [intros [] | congruence]|].
+  cbn [filter get fst snd]. destruct (ref_eqb (RName n) r) eqn:E.
+  - apply ref_eqb_spec in E. subst r. cbn [ref_eqb negb map fst In]. split; [intros _; discriminate | intros _; now left].
+  - assert (Hne : r <> RName n).
+    { intro X. rewrite X in E. assert (X2 : ref_eqb (RName n) (RName n) = true) by (apply ref_eqb_spec; reflexivity).
+      rewrite X2 in E. inversion E. }
+    destruct (negb (ref_eqb r (RDig (d_dig d)))); cbn [map fst In]; [|exact IH].
+    split; [intros [X|X]; [congruence | now apply IH] | intro X; right; now apply IH].
+Qed.
+
+(* ... so at every reachable configuration of the OCI store the set of names Tags lists is the
+   one of the sequential execution of the commit log *)
+Theorem tags_linearisable_oci (U : N -> gkey) (B : N -> blob) (progs : list (list op)) (sched : list nat) :
+  (forall g, k_dig (U g) = g) -> Forall (wf_op U B) (concat progs) ->
+  let cf := oconf_run (oconf_init progs) sched in
+  let q := fst (run oci_step oci_init (map snd (oc_log cf))) in
+  forall n l l', snd (oci_step (oc_store cf) Tags) = OTags l -> snd (oci_step q Tags) = OTags l' ->
+                 (In (RName n) l <-> In (RName n) l').
+Proof.
+  intros HU Hwf cf q. pose proof (oinv_run U HU B progs sched Hwf _ (oinv_init U B progs)) as Hinv.
+  fold cf in Hinv. destruct Hinv as [_ _ _ Hnm _ _ _ _ _ _]. fold (seq_ostate (map snd (oc_log cf))) in q.
+  intros n l l' H1 H2. subst q. cbn [oci_step snd] in H1, H2. injection H1 as <-. injection H2 as <-.
+  specialize (Hnm n). unfold names_of in Hnm.
+  split; intro X; apply tags_names; apply tags_names in X; congruence.
+Qed.
